@@ -180,4 +180,59 @@ theorem foldl_applyTW_lookup (ol : OrdLaws cmp) (k : Bytes) : ∀ (ds : List TWD
     · have : (cmp k d.key == .eq) = false := by simpa using hk
       simp [hk, List.find?_cons, this]
 
+/-! ### content-level semantics of `ApplyPatches` for point patches -/
+
+/-- what a point patch does to the mapping of its key -/
+def pointEffect (p : Patch) : Option KV :=
+  match p.to? with
+  | some (.val v) => some (p.endKey, v)
+  | _ => none
+
+theorem applyPatch_point_sorted (ol : OrdLaws cmp) (p : Patch) (hp : p.level = 0) {l : List KV} (h : Sorted cmp l) :
+    Sorted cmp (applyPatch cmp l p) := by
+  unfold applyPatch
+  simp only [hp, beq_self_eq_true, if_true]
+  split
+  · exact sorted_upsert ol _ _ h
+  · exact sorted_erase _ h
+
+theorem applyPatch_point_lookup (ol : OrdLaws cmp) (p : Patch) (hp : p.level = 0) (k : Bytes) {l : List KV} (h : Sorted cmp l) :
+    lookupKV cmp k (applyPatch cmp l p) = if cmp k p.endKey = .eq then pointEffect p else lookupKV cmp k l := by
+  unfold applyPatch pointEffect
+  simp only [hp, beq_self_eq_true, if_true]
+  split
+  · rename_i v hv; simp [hv, lookup_upsert ol]
+  · rename_i hno
+    rw [lookup_erase ol _ _ _ h]
+    by_cases hk : cmp k p.endKey = .eq
+    · simp only [hk, if_true]
+    · simp [hk]
+
+/-- **apply_point_patches_lookup**: `ApplyPatches` over a sorted stream of point patches (ascending
+keys) on a sorted map: a key maps to what its patch says (value, or nothing for a delete), and to
+its old mapping when no patch has that key -/
+theorem applyPatches_points_lookup (ol : OrdLaws cmp) (k : Bytes) : ∀ (ps : List Patch) (l : List KV), Sorted cmp l →
+    (∀ p ∈ ps, p.level = 0) → ps.Pairwise (fun p q => cmp p.endKey q.endKey = .lt) →
+    lookupKV cmp k (applyPatches cmp l ps) =
+      match ps.find? (fun p => cmp k p.endKey == .eq) with
+      | some p => pointEffect p
+      | none => lookupKV cmp k l
+  | [], l, _, _, _ => by simp [applyPatches]
+  | p :: ps, l, hs, hl, ha => by
+    have ha' := List.pairwise_cons.mp ha
+    have hp := hl p (by simp)
+    have ih := applyPatches_points_lookup ol k ps (applyPatch cmp l p) (applyPatch_point_sorted ol p hp hs)
+      (fun q hq => hl q (by simp [hq])) ha'.2
+    simp only [applyPatches, List.foldl_cons] at ih ⊢
+    rw [ih, applyPatch_point_lookup ol p hp k hs]
+    by_cases hk : cmp k p.endKey = .eq
+    · have hnone : ps.find? (fun q => cmp k q.endKey == .eq) = none := by
+        rw [List.find?_eq_none]
+        intro q hq
+        have := ol.eq_lt _ _ _ hk (ha'.1 q hq)
+        simp [this]
+      simp [hnone, hk, List.find?_cons]
+    · have : (cmp k p.endKey == .eq) = false := by simpa using hk
+      simp [hk, List.find?_cons, this]
+
 end DoltVerif.ProllyMerge
